@@ -230,15 +230,23 @@ def legal_moves(st: State, rng: random.Random, pol: Policy, werr: bool):
         mx = st.max_completion_betting_or_raising_to_amount
         if mn is not None and st.can_complete_bet_or_raise_to():
             mnc, mxc = pk.chip(mn), pk.chip(mx)
+            den = pk.Units.den
+
+            def whole(x):
+                # fractional chip types: wagers stay whole chips (the units are chosen so that pots of whole chips split exactly)
+                if den == 1:
+                    return x
+                lo, hi = -(-mnc // den), mxc // den
+                return min(max(x // den, lo), hi) * den if lo <= hi else mnc
             r = rng.random()
             if r < pol.allin / max(pol.raise_, 1e-9):
                 amt = A(has=True, amt=mxc)
             elif r < 0.5:
                 amt = NOARGS
             elif r < 0.75:
-                amt = A(has=True, amt=min(mxc, mnc + rng.randint(0, max(1, mnc))))
+                amt = A(has=True, amt=whole(min(mxc, mnc + rng.randint(0, max(1, mnc)))))
             else:
-                amt = A(has=True, amt=rng.randint(mnc, mxc))
+                amt = A(has=True, amt=whole(rng.randint(mnc, mxc)))
             mv.append((pol.raise_, 'complete_bet_or_raise_to', amt))
     if st.street_index is not None:
         sel = pend(st.runout_count_selector_statuses)
@@ -333,7 +341,7 @@ def play_hand(tid: int, spec: dict, rng: random.Random, pol: Policy, max_steps=4
         rec['create'] = {'out': out, 'post': {}, 'micro': []}
         return rec
     rec['cfg'] = pk.project_cfg(st, werr=werr, rake=spec.get('rake'),
-                                extra={'deckcards': sorted(card_int(c) for c in st.deck), 'variant': spec['variant'], 'sb': spec.get('sb', 0), 'bb': spec.get('bb', 0), 'deck': games.deck_name(st.deck)})
+                                extra={'deckcards': sorted(card_int(c) for c in st.deck), 'variant': spec['variant'], 'sb': pk.chip(spec.get('sb', 0)), 'bb': pk.chip(spec.get('bb', 0)), 'deck': games.deck_name(st.deck)})
     rec['create'] = {'out': 'ok', 'post': play.observe(st, 0), 'micro': mic}
     steps = rec['steps']
     k = 0
